@@ -549,6 +549,7 @@ def eigh_routine(ctx):
              sample='maximum(e, ridge)')
       if ridge_t is None:
         continue
+      clamp_is_added_ridge(ctx, 'C01.E1', ev, fi, ridge_t, rel, f'[pad={pad},rel={rel}]', cmpr)
       env['ridge'] = ridge_t
       # inv_e = where(G, 0, max(e, ridge)^(-1/p)): the power arm by formula, the guard G by what it selects at four points
       pw_exp = spec_term(ev, f'jnp.power(jnp.maximum({e_src}, ridge), -1.0 / p)', env)
@@ -637,6 +638,29 @@ def regularised_input(ctx):
           ctx.ob('C01.E2', fi.short, f'error[pad={pad},rel={rel}]', cmpr.same(err, exp_err),
                  f'error must be max|u^T A u - diag(e)| of the same decomposition; got `{cmpr.fmt(err)[:300]}`', ctx.loc(fi),
                  sample='err = max|U^T A U - diag(e)|')
+
+
+def scaled_ridge(ev, fi, rel):
+  """the documented ridge d = ridge_epsilon * max(max_ev, error_tolerance) as a term of evaluation ev (None: no unique estimate)"""
+  env = {'ridge_epsilon': sym('param', fi.short, 'ridge_epsilon'), 'error_tolerance': sym('param', fi.short, 'error_tolerance')}
+  if rel:
+    pcalls = [c for c in ev.calls if c.callee.endswith('.power_iteration')]
+    if len(pcalls) != 1:
+      return None
+    env['max_ev'] = ev.subscript(pcalls[0].result, const(1))
+  else:
+    env['max_ev'] = const(1.0)
+  return spec_term(ev, 'ridge_epsilon * jnp.maximum(max_ev, error_tolerance)', env)
+
+
+def clamp_is_added_ridge(ctx, rule, ev, fi, ridge_t, rel, tag, cmpr):
+  """The floor the eigenvalues are clamped to is the ridge d that was ADDED before the decomposition (every exact
+  eigenvalue of A + d I is >= d, so the clamp only removes rounding noise).  Clamping at the caller's raw
+  ridge_epsilon instead lifts genuine eigenvalues whenever the scale max(max_ev, tol) is below 1."""
+  want = scaled_ridge(ev, fi, rel)
+  ctx.ob(rule, fi.short, f'clamp floor is the added ridge {tag}', want is not None and cmpr.same(ridge_t, want),
+         f'eigenvalues must be clamped at ridge_epsilon * max(max_ev, error_tolerance) - the ridge added to the matrix; got `{cmpr.fmt(ridge_t)[:160]}`',
+         ctx.loc(fi), sample='maximum(e, scaled ridge)')
 
 
 def _guarded_inverse_power(ctx, fi, x, pw_exp, e_term, ridge_t, tag, cmpr):
@@ -771,7 +795,7 @@ def siblings(ctx):
     eyes = sorted((v_ for v_ in sc.vars.values() if _has_eye(v_) and not any(x.op in ('while', 'call') and fn_name(x) for x in walk(v_))),
                   key=lambda v_: sum(1 for _ in walk(v_)))
     ident = eyes[0] if eyes else None
-    if mat is None or ident is None:
+    if mat is None or (ident is None and q == 'matrix_inverse_pth_root'):
       raise AnalysisError(f'{q}: masked matrix / identity not found for the mask prologue check')
     P = sym('param', fi.short, 'matrix')
     cmpr = Comparer()
@@ -783,7 +807,9 @@ def siblings(ctx):
     ctx.ob('C01.R4', fi.short, 'prologue.matrix', cmpr.same(mat, exp_m),
            f'matrix must be masked on both axes by (arange(n) < padding_start); got `{cmpr.fmt(mat)}`', ctx.loc(fi),
            sample='matrix *= ix[None,:]; matrix *= ix[:,None]')
-    ctx.ob('C01.R4', fi.short, 'prologue.identity', cmpr.same(ident, exp_i),
+    # (the eigendecomposition-based routines use the identity only in the ridge term, which E3 decides as a whole: with
+    # the identity written inline there is no local to look at here)
+    ctx.ob('C01.R4', fi.short, 'prologue.identity', ident is None or cmpr.same(ident, exp_i),
            f'identity must be masked by (arange(n) < padding_start); got `{cmpr.fmt(ident)}`', ctx.loc(fi),
            sample='identity *= ix')
     for c in [c for c in ev.calls if c.callee.endswith('.power_iteration')]:
